@@ -152,3 +152,84 @@ case("c09-refactor-rename-pos", "C09", "refactor", [("src/stabilize/queue/dedup.
             self._items_added += 1
 
     def reset""")])
+
+# ------------------------------------------------------------------ C07
+P = "src/stabilize/persistence/sqlite/"
+case("c07-version-conjunct-dropped", "C07", "mutant", [(P + "transaction.py", """                        version = version + 1
+                    WHERE id = :id AND version = :version
+                    \"\"\",""", """                        version = version + 1
+                    WHERE id = :id
+                    \"\"\",""")], "C07.R1")
+case("c07-rowcount-check-returns", "C07", "mutant", [(P + "store/stage_ops.py", """                raise ConcurrencyError(f"Optimistic lock failed for stage {stage.id} (version {stage.version})")""", """                return""")], "C07.R1")
+case("c07-task-integrity-swallowed", "C07", "mutant", [(P + "helpers.py", """            raise ConcurrencyError(f"Task {task.id} was modified concurrently (expected version {task.version})")""", """            pass""")], "C07.R1")
+case("c07-join-tracking-swallow", "C07", "mutant", [(H + "complete_stage/split_logic.py", """                    except ConcurrencyError:
+                        if attempt == max_retries - 1:
+                            raise
+
+            elif downstream.join_type == JoinType.N_OF_M:""", """                    except ConcurrencyError:
+                        pass
+
+            elif downstream.join_type == JoinType.N_OF_M:""")], "C07.R4")
+case("c07-stale-object-in-retry", "C07", "mutant", [(H + "run_task/error.py", """        # Atomic: store stage + mark processed + push CompleteTask together
+        txn_helper.execute_atomic_critical(
+            stage=fresh_stage,
+            source_message=message,
+            messages_to_push=[
+                (
+                    CompleteTask(
+                        execution_type=message.execution_type,
+                        execution_id=message.execution_id,
+                        stage_id=message.stage_id,
+                        task_id=message.task_id,
+                        status=WorkflowStatus.TERMINAL,
+                    ),""", """        # Atomic: store stage + mark processed + push CompleteTask together
+        txn_helper.execute_atomic_critical(
+            stage=stage,
+            source_message=message,
+            messages_to_push=[
+                (
+                    CompleteTask(
+                        execution_type=message.execution_type,
+                        execution_id=message.execution_id,
+                        stage_id=message.stage_id,
+                        task_id=message.task_id,
+                        status=WorkflowStatus.TERMINAL,
+                    ),""")], "C07.R3")
+case("c07-new-writer-of-stage-table", "C07", "mutant", [(P + "operations.py", """    conn.commit()
+
+
+def is_message_processed(""", """    conn.execute("UPDATE stage_executions SET status = 'CANCELED' WHERE execution_id = :id", {"id": execution_id})
+    conn.commit()
+
+
+def is_message_processed(""")], "C07.R")
+case("c07-rollback-versions-not-called", "C07", "mutant", [(P + "store/store.py", """            txn.rollback_versions()
+""", """            pass
+""")], "C07.R5")
+case("c07-refactor-rename-cursor", "C07", "refactor", [(P + "helpers.py", """    cursor = conn.execute(
+        \"\"\"
+        UPDATE task_executions SET""", """    cur_ = conn.execute(
+        \"\"\"
+        UPDATE task_executions SET"""), (P + "helpers.py", "    if cursor.rowcount == 0:\n        # Row doesn't exist", "    if cur_.rowcount == 0:\n        # Row doesn't exist")])
+case("c07-refactor-sql-whitespace-case", "C07", "refactor", [(P + "store/stage_ops.py", """                    WHERE id = :id AND version = :version
+                    \"\"\",
+                    {
+                        "id": stage.id,
+                        "status": stage.status.name,
+                        "context": json.dumps(stage.context, default=str),
+                        "outputs": json.dumps(stage.outputs, default=str),
+                        "start_time": stage.start_time,
+                        "end_time": stage.end_time,
+                        "version": stage.version,
+                    },""", """                    where  id=:id
+                      and version=:version
+                    \"\"\",
+                    {
+                        "id": stage.id,
+                        "status": stage.status.name,
+                        "context": json.dumps(stage.context, default=str),
+                        "outputs": json.dumps(stage.outputs, default=str),
+                        "start_time": stage.start_time,
+                        "end_time": stage.end_time,
+                        "version": stage.version,
+                    },""")])
